@@ -419,7 +419,7 @@ def step (st : Drv.CratesV2.St) (cmd : String) (args : List String) : Drv.Crates
     | none => (st, "bad-op crate var")
   | "crate.q", [v, "descendants"] =>
     match cr v with
-    | some c => (st, resText id ((descendantIdsG d.pl c).bind fun l => .ok (showIds (sortInts l))))
+    | some c => (st, resText id ((descendantIds d.pl c).bind fun l => .ok (showIds (sortInts l))))
     | none => (st, "bad-op crate var")
   | "crate.q", [v, "name"] =>
     match cr v with
